@@ -362,6 +362,31 @@ def refVerdict (sc : Scenario) : Exitcode :=
   if (stuckPaths sc).any (confirmRaises sc.cfg.cacheSolver) then exitOfName HalmosVerif.Gen.Verdict.runTestsExceptionCode
   else verdictOf (refOutputs sc) (refStuck sc) (normalCount sc)
 
+/-! ## `setup()`: the solver filter over the non-reverting setUp() paths -/
+
+/-- the loop of `setup()` over the non-reverting paths (in path order), `k` paths kept so far: a path is discarded only when
+its feasibility query is answered `unsat`; the loop stops as soon as two paths are kept; `none`: the solver call raised
+(the exception makes `run_contract` give up on the contract) -/
+def setupLoop (cacheSolver : Bool) : List Proc → Nat → Option Nat
+  | [], k => some k
+  | p :: ps, k =>
+    match solveLowLevel cacheSolver p with
+    | none => none
+    | some (.unsat _) => setupLoop cacheSolver ps k
+    | some _ => if k + 1 > 1 then some (k + 1) else setupLoop cacheSolver ps (k + 1)
+
+/-- does setUp() succeed (exactly one state to run the tests from)? With a single non-reverting path the solver is not asked. -/
+def setupOk (cacheSolver : Bool) : List Proc → Bool
+  | [] => false
+  | [_] => true
+  | ps => setupLoop cacheSolver ps 0 == some 1
+
+/-- the feasibility query of a setUp path was NOT answered unsat (unknown, timeout, garbage, nothing, a crash, sat) -/
+def notUnsat (cacheSolver : Bool) (p : Proc) : Bool :=
+  match solveLowLevel cacheSolver p with
+  | some (.unsat _) => false
+  | _ => true
+
 /-! ## The process exit code -/
 
 /-- one selected contract: `num_found` tests matched, `run_contract` returned `results` (`[]` when setUp failed) -/
